@@ -724,6 +724,9 @@ def catalog():
         ext.append({"k": "typedef", "ty": "inner", "name": "extv%d" % bi, "arr": ["var", bnd]})
     ext.append({"k": "struct", "name": "one_each", "fields": [{"ty": "opaque", "name": "o", "arr": ["fixed", "1"], "opt": False},
                                                               {"ty": "inner", "name": "v", "arr": ["fixed", "ONE"], "opt": False}]})
+    # many instances of a huge declared maximum in one message: an array of structs each holding arrays bounded by 2^32-1
+    ext.append({"k": "typedef", "ty": "ext0", "name": "extrows", "arr": ["var", ""]})
+    ext.append({"k": "struct", "name": "exttable", "fields": [{"ty": "extv0", "name": "cols", "arr": ["var", ""], "opt": False}, {"ty": "int", "name": "tail", "arr": None, "opt": False}]})
     spec("bounds:extreme", ext)
     # long fixed arrays (an emitter may treat "many elements" differently) and the payload lengths real protocols use for ids
     longs = []
